@@ -1195,6 +1195,21 @@ impl<R> Reader<R> {
     }
 }
 
+/// Verification hook (off in every normal build): the refinement table of the
+/// crate-private `EncodingRef` (0 = Implicit, 1 = Explicit, 2 = BomDetected,
+/// 3 = XmlDetected). Returns `(can_be_refined, encoding)`.
+#[cfg(all(feature = "encoding", any(kani, quick_xml_verif)))]
+#[doc(hidden)]
+pub fn verif_encoding_ref(kind: u8, encoding: &'static Encoding) -> (bool, &'static Encoding) {
+    let e = match kind {
+        0 => EncodingRef::Implicit(encoding),
+        1 => EncodingRef::Explicit(encoding),
+        2 => EncodingRef::BomDetected(encoding),
+        _ => EncodingRef::XmlDetected(encoding),
+    };
+    (e.can_be_refined(), e.encoding())
+}
+
 /// Verification hooks (off in every normal build): run ONE helper of the
 /// crate-private `XmlSource` trait on a buffered source or on a slice, so that
 /// the helpers can be compared with each other.
